@@ -177,6 +177,9 @@ pub fn check(case: &Case, obs: &mut Obs) -> CheckResult {
     }
     let _ = sh.drain_wire();
     let _ = sh.drain_client();
+    // the harness's own registration record: a REG3 was delivered to the link and it has not been seen torn down
+    // since (the link's own phase is not consulted for the verdict)
+    let mut registered: Vec<bool> = (0..n).map(|i| mask & (1 << i) != 0).collect();
 
     let mut counter: u32 = 0;
     let mut next_seq: u32 = 1;
@@ -261,6 +264,12 @@ pub fn check(case: &Case, obs: &mut Obs) -> CheckResult {
 
     for (oi, op) in case.ops.iter().enumerate() {
         let what = format!("op {oi} {:?}", op);
+        // a link seen torn down (send failure, timeout) is no longer registered
+        for i in 0..n {
+            if !sh.st.conns[i].connected {
+                registered[i] = false;
+            }
+        }
         match op {
             Op::Advance(d) => sh.advance(*d as u64),
             Op::Guard(b) => sh.st.cfg.stall_deselect = *b,
@@ -390,6 +399,7 @@ pub fn check(case: &Case, obs: &mut Obs) -> CheckResult {
                 sh.uplink_pkt(li, &bytes);
                 let mut reset_ok = vec![false; n];
                 if matches!(u, Up::Reg3) {
+                    registered[li] = true;
                     reset_ok[li] = true; // re-registration clears the queue
                     if !before[li].is_empty() {
                         obs.class("reg3-with-nonempty-queue");
@@ -417,7 +427,7 @@ pub fn check(case: &Case, obs: &mut Obs) -> CheckResult {
                     let timeout = sh.st.cfg.conn_timeout_ms;
                     let usable_any = (0..n).any(|i| {
                         let c = &sh.st.conns[i];
-                        !matches!(c.phase, LinkPhase::Registering) && c.connected && c.last_received.is_some_and(|lr| now.saturating_sub(lr) < timeout)
+                        registered[i] && c.connected && c.last_received.is_some_and(|lr| now.saturating_sub(lr) < timeout)
                     });
                     let before = snapshot(&sh);
                     let conn_before: Vec<bool> = sh.st.conns.iter().map(|c| c.connected).collect();
@@ -485,7 +495,7 @@ pub fn check(case: &Case, obs: &mut Obs) -> CheckResult {
                     // unique copy + probes
                     let lost_with_torn_link = torn.iter().any(|t| *t);
                     if copies == 0 && !lost_with_torn_link {
-                        vensure!(!usable_any || !sh.st.reg.has_connected, "refused-with-usable-link", "{what}: client datagram refused although a usable uplink exists");
+                        vensure!(!usable_any, "refused-with-usable-link", "{what}: client datagram refused although a usable uplink exists");
                         obs.class("refused-no-usable-link");
                     } else {
                         accepted += 1;
